@@ -10,7 +10,7 @@ mod verif_native {
     // A SYN-ACK that echoes our nonce but advertises max_receive_alloc = 0 (peer-controlled field).
     fn run(max_receive_alloc: u32) -> (Client, std::net::UdpSocket) {
         let srv = std::net::UdpSocket::bind("127.0.0.1:0").unwrap();
-        srv.set_read_timeout(Some(Duration::from_millis(300))).unwrap();
+        srv.set_read_timeout(Some(Duration::from_millis(5000))).unwrap();
         let mut client = Client::connect(srv.local_addr().unwrap(), Default::default()).unwrap();
         // valid API call: 1 byte <= max_packet_size, channel 0; queued while the handshake is pending
         client.send(Box::new([1u8]), 0, SendMode::Reliable);
